@@ -18,7 +18,7 @@ open Rules.P (Tree Kind)
 
 theorem C07_panic_is_error (lower : Bytes → Bytes) (t : Tree) (item : List (Bytes × Value)) (p : PanicInfo)
     (h : visit lower t (VState.init item) = .error p) :
-    processTree lower t item = { verdict := false, err := some (.panic p.p), debug := none, calls := p.calls } := by
+    processTree lower t item = { verdict := false, err := some (.panic p.p), debug := p.debug, calls := p.calls } := by
   simp [processTree, h]
 
 theorem C07_outcomes (lower : Bytes → Bytes) (t : Tree) (item : List (Bytes × Value)) :
